@@ -37,6 +37,7 @@ def close(a, b, tol, scale=1.0):
 # ------------------------------------------------------------------------------------------------
 KINDS = {
     "distance": ("distance", ["group1", "group2"]),
+    "distanceVec": ("distanceVec", ["group1", "group2"]),      # modelled as three distanceZ variables (axes x, y, z)
     "distanceZ": ("distanceZ", ["main", "ref"]),
     "distanceZ2": ("distanceZ", ["main", "ref", "ref2"]),
     "distanceXY": ("distanceXY", ["main", "ref"]),
@@ -54,7 +55,7 @@ KINDS = {
     "polarTheta": ("polarTheta", ["atoms"]),
     "polarPhi": ("polarPhi", ["atoms"]),
 }
-COM_BASED = {"distance", "distanceZ", "distanceZ2", "distanceXY", "distanceXY2", "angle", "dihedral", "polarTheta", "polarPhi"}
+COM_BASED = {"distance", "distanceVec", "distanceZ", "distanceZ2", "distanceXY", "distanceXY2", "angle", "dihedral", "polarTheta", "polarPhi"}
 ATOM_BASED = {"distanceInv", "gyration", "inertia", "inertiaZ", "coordNum", "selfCoordNum", "dipoleMagnitude", "dipoleAngle"}
 POSITIVE = {"distance", "distanceXY", "distanceXY2", "distanceInv", "gyration", "inertia", "angle"}
 T1 = ["distance", "distanceZ", "distanceZ2", "distanceXY", "distanceXY2", "distanceInv", "gyration", "inertia", "inertiaZ",
@@ -136,7 +137,7 @@ def config_text(case):
         kw = {"harmonic": "harmonic", "walls": "harmonicWalls", "linear": "linear"}[b["type"]]
         L += [kw + " {", "  name b%d" % j, "  colvars " + " ".join("v%d" % t[0] for t in b["terms"])]
         if b["type"] in ("harmonic", "linear"):
-            L.append("  centers " + " ".join("%r" % t[1] for t in b["terms"]))
+            L.append("  centers " + " ".join(("%r" % t[1]) if not isinstance(t[1], (tuple, list)) else v3(t[1]) for t in b["terms"]))
             L.append("  forceConstant %r" % b["k"])
         else:
             if b["hl"]:
@@ -219,8 +220,24 @@ def model_line(case):
         t += ["1"] + [hx(x) for x in case["cell"]]
     else:
         t.append("0")
-    t.append(str(len(case["vars"])))
+    # a distanceVec variable is presented to the model as three scalar variables: distanceZ along x, y, z with
+    # main = group2 and ref = group1 (the same centres of mass, the same minimum-image difference)
+    mvars, vmap = [], []
     for v in case["vars"]:
+        if v.get("vec"):
+            c = v["cvcs"][0]
+            idx = []
+            for ax in ((1.0, 0.0, 0.0), (0.0, 1.0, 0.0), (0.0, 0.0, 1.0)):
+                c2 = {"kind": "distanceZ", "coeff": c.get("coeff", 1.0), "exp": 1, "params": {"pbc": c["params"]["pbc"], "axis": ax},
+                      "groups": [c["groups"][1], c["groups"][0]]}
+                idx.append(len(mvars))
+                mvars.append({"width": v["width"], "cvcs": [c2]})
+            vmap.append(idx)
+        else:
+            vmap.append([len(mvars)])
+            mvars.append(v)
+    t.append(str(len(mvars)))
+    for v in mvars:
         per = var_period(v)
         t += [hx(v["width"]), "1" if per else "0", hx(per), str(len(v["cvcs"]))]
         for c in v["cvcs"]:
@@ -243,8 +260,14 @@ def model_line(case):
     t.append(str(len(case["biases"])))
     for b in case["biases"]:
         if b["type"] in ("harmonic", "linear"):
-            t += [b["type"], hx(b["k"]), str(len(b["terms"]))]
+            terms = []
             for (i, c) in b["terms"]:
+                if isinstance(c, (tuple, list)):
+                    terms += [(j, cj) for j, cj in zip(vmap[i], c)]
+                else:
+                    terms.append((vmap[i][0], c))
+            t += [b["type"], hx(b["k"]), str(len(terms))]
+            for (i, c) in terms:
                 t += [str(i), hx(c)]
         else:
             # colvarbias_restraint_harmonic_walls::init: force_k and the two relative constants
@@ -257,7 +280,7 @@ def model_line(case):
                 k = b["lwk"]; lk = 1.0; uk = 1.0
             t += ["walls", hx(k), hx(lk), hx(uk), "1" if hl else "0", "1" if hu else "0", str(len(b["terms"]))]
             for (i, lo, up) in b["terms"]:
-                t += [str(i), hx(lo), hx(up)]
+                t += [str(vmap[i][0]), hx(lo), hx(up)]
     return " ".join(t)
 
 
@@ -321,6 +344,9 @@ def cvc_guard(case, c):
             return vnorm(d) > 0.3 and m > MARG
         if k == "distanceZ":
             d, m = mic(case, vsub(cs[0], cs[1]), pbc)
+            return m > MARG
+        if k == "distanceVec":
+            d, m = mic(case, vsub(cs[1], cs[0]), pbc)
             return m > MARG
         if k in ("distanceZ2", "distanceXY2"):
             a12, m1 = mic(case, vsub(cs[2], cs[1]), pbc)
@@ -461,7 +487,7 @@ def gen_cvc(r, kind, n_atoms, opts):
     c = {"kind": kind, "params": {}, "groups": []}
     pr = c["params"]
     ng = len(KINDS[kind][1])
-    if kind in ("distance", "distanceZ", "distanceZ2", "distanceXY", "distanceXY2", "distanceInv", "angle", "dihedral", "dipoleAngle"):
+    if kind in ("distance", "distanceVec", "distanceZ", "distanceZ2", "distanceXY", "distanceXY2", "distanceInv", "angle", "dihedral", "dipoleAngle"):
         pr["pbc"] = r.random() < 0.7
     if kind in ("distanceZ", "distanceXY", "inertiaZ"):
         pr["axis"] = unit_axis(r.choice(AXES))
@@ -509,6 +535,8 @@ PERIODIC = {"dihedral": 360.0, "polarPhi": 360.0}
 
 def var_period(v):
     """colvar::init: the restraint metric of a homogeneous variable is that of its first component"""
+    if v.get("vec"):
+        return 0.0
     homog = all(c.get("exp", 1) == 1 and abs(abs(c.get("coeff", 1.0)) - 1.0) < 1e-10 for c in v["cvcs"])
     if homog and v["cvcs"][0]["kind"] in PERIODIC:
         return PERIODIC[v["cvcs"][0]["kind"]]
@@ -539,6 +567,14 @@ def gen_case(r, kinds, opts):
         vars_ = []
         ok = True
         for vi in range(nv):
+            if opts.get("vec") and r.random() < opts["vec"]:
+                c = gen_cvc(r, "distanceVec", n_atoms, opts)
+                if c is None or not cvc_guard(case, c):
+                    ok = False
+                    break
+                c["exp"] = 1
+                vars_.append({"width": r.choice([1.0, 1.0, 0.5, 2.0]), "cvcs": [c], "vec": True})
+                continue
             ncv = 1 if (not opts["poly"] or r.random() < 0.6) else 2
             cvcs = []
             for ci in range(ncv):
@@ -561,10 +597,19 @@ def gen_case(r, kinds, opts):
     for bi in range(nb):
         bt = r.choice(opts["biases"])
         vis = [r.randrange(nv)] if (nv == 1 or r.random() < 0.5) else list(range(nv))
+        if any(case["vars"][i].get("vec") for i in vis):
+            bt = "harmonic"      # walls are for scalars; keep vectors under harmonic restraints
         if bt == "linear" and any(var_period(case["vars"][i]) for i in vis):
             bt = "harmonic"      # linear biases cannot be applied to periodic variables
         if bt == "harmonic":
-            b = {"type": "harmonic", "k": r.choice([1.0, 2.0, 0.5, 10.0, 3.0]), "terms": [(i, V.dyadic(r, -2, 6, bits=3)) for i in vis]}
+            def vec_centre(v):
+                # distance_vec::dist2 takes the minimum image of (value - centre) when a cell is defined: keep the centre
+                # within 1.5 of the value so that the restraint metric is the plain difference (the model's)
+                c = v["cvcs"][0]
+                d, _ = mic(case, vsub(gcom(case, c["groups"][1]), gcom(case, c["groups"][0])), c["params"]["pbc"])
+                return tuple(round(c.get("coeff", 1.0) * x * 8) / 8.0 + V.dyadic(r, -1.5, 1.5, bits=3) for x in d)
+            b = {"type": "harmonic", "k": r.choice([1.0, 2.0, 0.5, 10.0, 3.0]),
+                 "terms": [(i, vec_centre(case["vars"][i]) if case["vars"][i].get("vec") else V.dyadic(r, -2, 6, bits=3)) for i in vis]}
         elif bt == "linear":
             b = {"type": "linear", "k": r.choice([1.0, -2.0, 0.5, 3.0]), "terms": [(i, V.dyadic(r, -2, 6, bits=3)) for i in vis]}
         else:
@@ -691,7 +736,7 @@ def fd_check(case, res):
     fmax = max([1e-3] + [abs(x) for f in forces.values() for x in f])
     emax = max([abs(base.get("energy", 0.0))] + [abs(st.get("energy") or 0.0) for st in fd_steps])
     # rounding of the energy itself limits what a difference quotient can resolve
-    noise = 16 * 2.0 ** -52 * emax / H2
+    noise = 1024 * 2.0 ** -52 * emax / H2
     worst = None
     for n, (a, k) in enumerate(coords):
         e = [fd_steps[4 * n + j].get("energy") for j in range(4)]
@@ -703,12 +748,14 @@ def fd_check(case, res):
         est = abs(d2 - d1)
         f = forces.get(a, [0.0, 0.0, 0.0])[k]
         scale = max(fmax, abs(rich))
-        if est > 1e-3 * scale or noise > 1e-4 * scale:
-            # the two step sizes disagree (too close to a singular geometry / a kink), or the energy is so large
-            # that its rounding swamps the difference quotient: no verdict
-            return "ambiguous", "finite differences undecided (atom %d axis %d: %r vs %r, rounding noise %.3g)" % (a + 1, k, d1, d2, noise)
+        if est > 1e-3 * scale:
+            # the two step sizes disagree: too close to a singular geometry / a kink for a verdict
+            return "ambiguous", "finite differences at the two step sizes disagree (atom %d axis %d: %r vs %r)" % (a + 1, k, d1, d2)
         err = abs(f + rich)
         if err > TOL_FD * scale + noise + 0.05 * est:
+            if noise > 1e-4 * scale:
+                # the rounding of the energy (or of a variable amplified by dE/dxi) swamps the difference quotient
+                return "ambiguous", "finite differences cannot resolve forces of this size (rounding noise %.3g, scale %.3g)" % (noise, scale)
             if worst is None or err / scale > worst[0]:
                 worst = (err / scale, a, k, f, -rich)
     if worst:
@@ -744,12 +791,12 @@ def shrink_fd(vsim, case, run_one):
     for vi, v in enumerate(case["vars"]):
         for c in v["cvcs"]:
             c2 = copy.deepcopy(c)
-            small = {"atoms": case["atoms"], "cell": case.get("cell"), "vars": [{"width": v["width"], "cvcs": [c2]}],
-                     "biases": [{"type": "harmonic", "k": 1.0, "terms": [(0, 0.5)]}]}
+            small = {"atoms": case["atoms"], "cell": case.get("cell"), "vars": [{"width": v["width"], "cvcs": [c2], "vec": v.get("vec", False)}],
+                     "biases": [{"type": "harmonic", "k": 1.0, "terms": [(0, (0.5, 0.5, 0.5) if v.get("vec") else 0.5)]}]}
             small["touched"] = touched_atoms(small)
             cands.append(small)
             c3 = copy.deepcopy(c2); c3["coeff"] = 1.0; c3["exp"] = 1
-            small2 = dict(small); small2["vars"] = [{"width": 1.0, "cvcs": [c3]}]
+            small2 = dict(small); small2["vars"] = [{"width": 1.0, "cvcs": [c3], "vec": v.get("vec", False)}]
             cands.append(small2)
     for cand in reversed(cands):
         st, det, _ = run_one(cand)
@@ -949,20 +996,24 @@ def compare_case(run, case, res, mline, mout):
         return False
     try:
         iv = w.index("V"); jf = w.index("F")
-        me = float.fromhex(w[1]); mv = [float.fromhex(t) for t in w[iv + 1:jf]]; mf = [float.fromhex(t) for t in w[jf + 1:]]
+        me = float.fromhex(w[1]); msc = float.fromhex(w[3]); mv = [float.fromhex(t) for t in w[iv + 1:jf]]; mf = [float.fromhex(t) for t in w[jf + 1:]]
     except ValueError:
         run.mismatch(comp, {"line": mline}, base.get("energy"), mout)
         return False
     ok = True
     bad = []
-    for i in range(len(case["vars"])):
+    mi = 0
+    for i, v in enumerate(case["vars"]):
         x = base["cv"].get("v%d" % i)
-        if not x or not close(x[0], mv[i], TOL_TIE):
-            bad.append("value v%d impl=%r model=%r" % (i, x, mv[i]))
+        n = 3 if v.get("vec") else 1
+        if not x or len(x) != n or not all(close(a, b, TOL_TIE) for a, b in zip(x, mv[mi:mi + n])):
+            bad.append("value v%d impl=%r model=%r" % (i, x, mv[mi:mi + n]))
+        mi += n
     escale = max(1.0, abs(me))
     if not close(base["energy"], me, TOL_TIE):
         bad.append("energy impl=%r model=%r" % (base["energy"], me))
-    fscale = max([1.0] + [abs(x) for x in mf])
+    # forces are sums of contributions that may cancel: the tolerance is relative to the largest contribution
+    fscale = max([1.0, msc] + [abs(x) for x in mf])
     for a in range(len(case["atoms"])):
         fi = base["atomf"].get(a, [0.0, 0.0, 0.0])
         fm = mf[3 * a:3 * a + 3]
@@ -996,12 +1047,17 @@ def check(run):
     model, exes = st
     vsim = exes["vsim"]
 
-    opts = {"dummy": True, "center": True, "poly": True, "cell": True, "nofitgrad": True, "biases": ["harmonic", "harmonic", "walls", "linear"]}
+    opts = {"dummy": True, "center": True, "poly": True, "cell": True, "nofitgrad": True, "vec": 0.12, "biases": ["harmonic", "harmonic", "walls", "linear"]}
     kinds = T1 + T1 + T2
     ncases = 500 if quick else 20000
     cases = load_corpus()
     # first block: each component alone under a harmonic restraint, plain groups (the (a) deliverable)
     plain = {"dummy": False, "center": False, "poly": False, "cell": False, "biases": ["harmonic"]}
+    vplain = dict(plain, vec=1.0)
+    for _ in range(4 if quick else 40):
+        c = gen_case(r, ["distance"], vplain)
+        if c:
+            cases.append(c)
     for k in T1 + T2:
         for _ in range(2 if quick else 20):
             c = gen_case(r, [k], plain)
